@@ -1,3 +1,248 @@
 import RsomeV.M.Robust
+import RsomeV.L.ConeDualWeak
+import RsomeV.L.RobustSound
+import Mathlib.Tactic.Linarith
+import Mathlib.Tactic.Ring
+import Mathlib.Tactic.NormNum
+
+/-! C01 — safety of the robust counterpart: the model `RoRows.leToRc` of `RoConstr.le_to_rc`
+applied to the model `ConeProg.coneDual` of the support's conic dual is a *sufficient* condition
+for the uncertain rows to hold at every point of the support. -/
+
+set_option linter.unusedSectionVars false
+set_option linter.unusedSimpArgs false
+set_option linter.unusedVariables false
+
 namespace RsomeV.C01
+open Finset RsomeV ConeProg RoRows
+
+variable {K : Type} [Field K] [LinearOrder K] [IsStrictOrderedRing K]
+
+/-- **Safety of the robust counterpart** (model of `RoConstr.le_to_rc` over the model of the
+support's conic dual): every assignment `v` (decisions and multipliers) feasible for the
+counterpart fragment satisfies uncertain row `n` at every point `ζ` of the (lifted) support
+program — for every support (any bound pattern, equalities, inequalities, lifted norm rows,
+second-order and exponential cones), every coefficient and every `ζ`.
+
+No hypothesis was added to the requested statement; the suggested hypothesis `hx` (exponential
+cones sit on lifted columns) is not needed and was dropped. -/
+theorem rc_sound (Pz : ConeProg K) (E : K → K → K → Prop) (hE : ExpPair E) (hwf : Pz.WF)
+    (hones : ∀ j, Pz.lp.c j = 1)                 -- the support program is formulated with obj=False
+    (R : RoRows K) (hnz : R.nz ≤ Pz.lp.nc)       -- every random component of the rows is a column of the support program
+    (hq : ∀ q ∈ Pz.qmat, ∀ j ∈ q, R.nz ≤ j)      -- second-order cones sit on lifted columns
+    (hxq : Pz.rowsRemoved = true → ∀ e ∈ Pz.xmat, ∀ j ∈ e, j ∉ Pz.eye)
+    (v : ℕ → K) (hv : (R.leToRc Pz.coneDual).prog.Feas E v)
+    (n : ℕ) (hn : n < R.m) (ζ : ℕ → K) (hζ : Pz.Feas E ζ) :
+    R.eval n v ζ ≤ 0 := by
+  set S := Pz.coneDual with hS
+  -- the cost that makes the support program's objective the uncertain part of row `n`
+  set c' : ℕ → K := fun j => if j < R.nz then - R.coef n j v else 0 with hc'
+  have hnr : R.nz ≤ S.lp.nr := le_coneDual_nr Pz R.nz hnz hq
+  have hnum : R.numRand S = R.nz := by unfold numRand; exact Nat.min_eq_left hnr
+  -- the multipliers of row `n` are feasible for the conic dual of the re-costed support program
+  have hy : (Pz.withCost c').coneDual.Feas E (fun i => v (R.ycol S n i)) := by
+    rw [coneDual_withCost]
+    apply leToRc_extract R S E (coneDual_ub Pz) (coneDual_lb Pz) (coneDual_xlen Pz) v hv n hn
+    intro j hj
+    rw [hnum, hS, coneDual_b]
+    unfold dualRhs
+    by_cases h : j < R.nz
+    · rw [if_pos h, rowIdx_lt Pz R.nz hnz hq j h, hones]
+      simp only [hc', h, if_true]
+      split_ifs <;> ring
+    · have := rowIdx_ge Pz R.nz hnz hq j (by omega) hj
+      rw [if_neg h]
+      simp only [hc', show ¬ Pz.rowIdx j < R.nz by omega, if_false]
+      split_ifs <;> simp
+  have hwf' : (Pz.withCost c').WF := ⟨hwf.qlt, hwf.xlen, hwf.xlt, hwf.xnotneg, hwf.stcov⟩
+  have hζ' : (Pz.withCost c').Feas E ζ := ⟨⟨hζ.lin.rows, hζ.lin.ubs, hζ.lin.lbs⟩, hζ.soc, hζ.exp⟩
+  have hcz : (Pz.withCost c').rowsRemoved = true →
+      ∀ q ∈ (Pz.withCost c').qmat, ∀ j ∈ q, (Pz.withCost c').lp.c j = 0 := by
+    intro _ q hq' j hj
+    have := hq q hq' j hj
+    show c' j = 0
+    simp only [hc', show ¬ j < R.nz by omega, if_false]
+  have hweak := coneDual_weak (Pz.withCost c') E hE hwf' hcz hxq ζ _ hζ' hy
+  -- dual objective = objective of `S` at the multipliers (cost and width do not depend on `c'`)
+  have hobjS : (Pz.withCost c').coneDual.lp.obj (fun i => v (R.ycol S n i))
+      = ∑ i ∈ range S.lp.nc, S.lp.c i * v (R.ycol S n i) := by
+    rw [coneDual_withCost]; rfl
+  -- primal objective = minus the uncertain part of the row
+  have hobjP : (Pz.withCost c').lp.obj ζ = - ∑ j ∈ range R.nz, R.coef n j v * ζ j := by
+    show ∑ j ∈ range Pz.lp.nc, c' j * ζ j = _
+    obtain ⟨k, hk⟩ := Nat.exists_eq_add_of_le hnz
+    rw [hk, Finset.sum_range_add, ← Finset.sum_neg_distrib]
+    have h0 : ∑ x ∈ range k, c' (R.nz + x) * ζ (R.nz + x) = 0 := by
+      apply Finset.sum_eq_zero; intro x _
+      simp only [hc', show ¬ R.nz + x < R.nz by omega, if_false, zero_mul]
+    rw [h0, add_zero]
+    apply Finset.sum_congr rfl; intro j hj
+    simp only [hc', Finset.mem_range.mp hj, if_true]; ring
+  -- row (1) of the counterpart
+  have hrow1 := hv.lin.rows n (by rw [leToRc_nr]; omega)
+  rw [leToRc_row1 R S n hn, leToRc_b1 R S n hn, leToRc_eq1 R S n hn] at hrow1
+  simp only [Bool.false_eq_true, if_false] at hrow1
+  rw [hobjS, hobjP] at hweak
+  unfold RoRows.eval
+  unfold coef at hweak
+  linarith
+
+/-! #### The hypotheses of `rc_sound` are satisfiable: interval support `0 ≤ z ≤ 2`, row `x·z - 4 ≤ 0`
+
+The support program has one column (`lb = 0`, `ub = 2`), no rows, no cones; its dual has one
+row `y ≤ 1` and one multiplier column `y ≤ 0` with cost `-2`.  The counterpart of the row
+`x·z - 4 ≤ 0` is `-2·Y ≤ 4`, `x + Y ≤ 0`, `Y ≤ 0`; it is feasible at `x = 2`, `Y = -2` (the bounded
+multiplier is active in the sense that `Y < 0`), and `rc_sound` then yields `2·ζ - 4 ≤ 0` on the
+whole interval. -/
+
+/-- support program of the interval `0 ≤ z ≤ 2` (formulated with `obj=False`) -/
+def exPz : ConeProg ℚ :=
+  { lp := { nr := 0, nc := 1, a := fun _ _ => 0, b := fun _ => 0, eq := fun _ => false,
+            ub := fun j => if j = 0 then some 2 else none,
+            lb := fun j => if j = 0 then some 0 else none, c := fun _ => 1 }
+    st := fun _ _ => false, qmat := [], xmat := [] }
+
+/-- the uncertain row `x·z - 4 ≤ 0` over one decision column -/
+def exR : RoRows ℚ :=
+  { nd := 1, m := 1, nz := 1, Rl := fun _ _ _ => 1, Rc := fun _ _ => 0, al := fun _ _ => 0,
+    ac := fun _ => -4 }
+
+/-- decision `x = 2`, multiplier `Y = -2` -/
+def exV : ℕ → ℚ := fun c => if c = 0 then 2 else -2
+
+lemma exPz_wf : exPz.WF where
+  qlt := by intro q hq; simp [exPz] at hq
+  xlen := by intro e he; simp [exPz] at he
+  xlt := by intro e he; simp [exPz] at he
+  xnotneg := by intro e he; simp [exPz] at he
+  stcov := by intro i j h; exact absurd rfl h
+
+lemma exS_nc : exPz.coneDual.lp.nc = 1 := by decide
+lemma exS_nr : exPz.coneDual.lp.nr = 1 := by decide
+lemma exS_c : exPz.coneDual.lp.c 0 = -2 := by decide
+lemma exS_a : exPz.coneDual.lp.a 0 0 = 1 := by decide
+lemma exS_b : exPz.coneDual.lp.b 0 = 1 := by decide
+lemma exS_eq : exPz.coneDual.lp.eq 0 = false := by decide
+lemma exS_ub : exPz.coneDual.lp.ub 0 = some 0 := by decide
+lemma exS_lb : exPz.coneDual.lp.lb 0 = none := by decide
+lemma exS_q : exPz.coneDual.qmat = [] := by decide
+lemma exS_x : exPz.coneDual.xmat = [] := by decide
+lemma exNum : exR.numRand exPz.coneDual = 1 := by decide
+
+
+/-- the counterpart fragment is feasible at `x = 2`, `Y = -2` -/
+lemma ex_feas : (exR.leToRc exPz.coneDual).prog.Feas (fun _ _ _ => False) exV := by
+  have hnr : (exR.leToRc exPz.coneDual).prog.lp.nr = 2 := by
+    rw [leToRc_nr, exNum, exS_nr]; rfl
+  have hnc : (exR.leToRc exPz.coneDual).prog.lp.nc = 2 := by
+    rw [leToRc_nc, exS_nc]; rfl
+  refine ⟨⟨?_, ?_, ?_⟩, ?_, ?_⟩
+  · intro i hi
+    rw [hnr] at hi
+    obtain rfl | rfl : i = 0 ∨ i = 1 := by omega
+    · have h := leToRc_row1 exR exPz.coneDual 0 (by decide) exV
+      rw [h, leToRc_b1 _ _ 0 (by decide), leToRc_eq1 _ _ 0 (by decide), exS_nc]
+      simp [exS_c, exR, exV, ycol, exS_nc]
+      norm_num
+    · have h := leToRc_row2 exR exPz.coneDual 0 (by decide) 0 (by decide) exV
+      have hb := leToRc_b2 exR exPz.coneDual 0 (by decide) 0 (by decide)
+      have he := leToRc_eq2 exR exPz.coneDual 0 (by decide) 0 (by decide)
+      rw [exNum] at h hb he
+      have e1 : exR.m + (0 * 1 + 0) = 1 := rfl
+      rw [e1] at h hb he
+      rw [h, hb, he, exS_eq, exS_nc]
+      simp [exS_a, exS_b, exR, exV, ycol, exS_nc]
+  · intro j hj
+    rw [hnc] at hj
+    obtain rfl | rfl : j = 0 ∨ j = 1 := by omega
+    · simp [leToRc, LinProg.leUb, exR]
+    · simp [leToRc, LinProg.leUb, exR, exS_nc, exS_ub, exV]
+  · intro j hj
+    rw [hnc] at hj
+    obtain rfl | rfl : j = 0 ∨ j = 1 := by omega
+    · simp [leToRc, LinProg.geLb, exR]
+    · simp [leToRc, LinProg.geLb, exR, exS_nc, exS_lb, exV]
+  · intro q hq
+    simp [leToRc, exS_q] at hq
+  · intro e he
+    simp [leToRc, exS_x] at he
+
+/-- all hypotheses of `rc_sound` hold for the instance -/
+example :
+    exPz.WF ∧ (∀ j, exPz.lp.c j = 1) ∧ exR.nz ≤ exPz.lp.nc ∧
+    (∀ q ∈ exPz.qmat, ∀ j ∈ q, exR.nz ≤ j) ∧
+    (exPz.rowsRemoved = true → ∀ e ∈ exPz.xmat, ∀ j ∈ e, j ∉ exPz.eye) ∧
+    (exR.leToRc exPz.coneDual).prog.Feas (fun _ _ _ => False) exV := by
+  refine ⟨exPz_wf, fun _ => rfl, le_refl _, ?_, ?_, ?_⟩
+  · intro q hq; simp [exPz] at hq
+  · intro _ e he; simp [exPz] at he
+  · exact ex_feas
+
+/-- and `rc_sound` gives the robust guarantee `2·ζ - 4 ≤ 0` on the whole interval -/
+example (ζ : ℕ → ℚ) (hζ : exPz.Feas (fun _ _ _ => False) ζ) : exR.eval 0 exV ζ ≤ 0 :=
+  rc_sound exPz _ (fun _ _ _ _ _ _ h _ => h.elim) exPz_wf (fun _ => rfl) exR (le_refl _)
+    (by intro q hq; simp [exPz] at hq) (by intro _ e he; simp [exPz] at he) exV ex_feas 0
+    (by decide) ζ hζ
+
+/-! #### Robust equalities -/
+
+/-- negation of a block of rows (what `ro.Model.st` builds for the second half of an `==`
+constraint) -/
+def negRows (R : RoRows K) : RoRows K :=
+  { R with Rl := fun n j d => - R.Rl n j d, Rc := fun n j => - R.Rc n j,
+           al := fun n d => - R.al n d, ac := fun n => - R.ac n }
+
+theorem eval_negRows (R : RoRows K) (n : ℕ) (v ζ : ℕ → K) :
+    (negRows R).eval n v ζ = - R.eval n v ζ := by
+  show (∑ j ∈ range R.nz, ((∑ d ∈ range R.nd, - R.Rl n j d * v d) + - R.Rc n j) * ζ j) +
+      ((∑ d ∈ range R.nd, - R.al n d * v d) + - R.ac n)
+    = - ((∑ j ∈ range R.nz, ((∑ d ∈ range R.nd, R.Rl n j d * v d) + R.Rc n j) * ζ j) +
+      ((∑ d ∈ range R.nd, R.al n d * v d) + R.ac n))
+  have h1 : ∀ j, ((∑ d ∈ range R.nd, - R.Rl n j d * v d) + - R.Rc n j) * ζ j
+      = - (((∑ d ∈ range R.nd, R.Rl n j d * v d) + R.Rc n j) * ζ j) := by
+    intro j
+    simp only [neg_mul, Finset.sum_neg_distrib]
+    ring
+  have h2 : ∑ d ∈ range R.nd, - R.al n d * v d = - ∑ d ∈ range R.nd, R.al n d * v d := by
+    simp only [neg_mul, Finset.sum_neg_distrib]
+  rw [Finset.sum_congr rfl (fun j _ => h1 j), Finset.sum_neg_distrib, h2]
+  ring
+
+/-- **Robust equality**: if the counterparts of a block of rows and of its negation both hold at
+`v`, row `n` holds with equality at every point of the support.
+
+`R'` is `R` re-based on a larger number `nd` of decision columns (the second call of `le_to_rc`
+happens after the first allocated its multipliers, so its multiplier columns start further right
+and the coefficient arrays are padded); `hm'`, `hnz'` and `hsame` state that it denotes the same
+block of rows (same number of rows and of random components, same value of row `n` at `v`). -/
+theorem rc_sound_eq (Pz : ConeProg K) (E : K → K → K → Prop) (hE : ExpPair E) (hwf : Pz.WF)
+    (hones : ∀ j, Pz.lp.c j = 1)
+    (R R' : RoRows K) (hm' : R'.m = R.m) (hnz' : R'.nz = R.nz) (hnz : R.nz ≤ Pz.lp.nc)
+    (hq : ∀ q ∈ Pz.qmat, ∀ j ∈ q, R.nz ≤ j)
+    (hxq : Pz.rowsRemoved = true → ∀ e ∈ Pz.xmat, ∀ j ∈ e, j ∉ Pz.eye)
+    (v : ℕ → K) (hv : (R.leToRc Pz.coneDual).prog.Feas E v)
+    (hv' : ((negRows R').leToRc Pz.coneDual).prog.Feas E v)
+    (n : ℕ) (hn : n < R.m) (hsame : ∀ ζ, R'.eval n v ζ = R.eval n v ζ)
+    (ζ : ℕ → K) (hζ : Pz.Feas E ζ) :
+    R.eval n v ζ = 0 := by
+  have h1 := rc_sound Pz E hE hwf hones R hnz hq hxq v hv n hn ζ hζ
+  have h2 := rc_sound Pz E hE hwf hones (negRows R') (by show R'.nz ≤ _; rw [hnz']; exact hnz)
+    (by intro q hq' j hj; show R'.nz ≤ j; rw [hnz']; exact hq q hq' j hj) hxq v hv' n
+    (by show n < R'.m; rw [hm']; exact hn) ζ hζ
+  rw [eval_negRows, hsame] at h2
+  linarith
+
+/-- `rc_sound_eq` with `R' = R` (both counterparts built over the same decision columns) -/
+theorem rc_sound_eq' (Pz : ConeProg K) (E : K → K → K → Prop) (hE : ExpPair E) (hwf : Pz.WF)
+    (hones : ∀ j, Pz.lp.c j = 1)
+    (R : RoRows K) (hnz : R.nz ≤ Pz.lp.nc)
+    (hq : ∀ q ∈ Pz.qmat, ∀ j ∈ q, R.nz ≤ j)
+    (hxq : Pz.rowsRemoved = true → ∀ e ∈ Pz.xmat, ∀ j ∈ e, j ∉ Pz.eye)
+    (v : ℕ → K) (hv : (R.leToRc Pz.coneDual).prog.Feas E v)
+    (hv' : ((negRows R).leToRc Pz.coneDual).prog.Feas E v)
+    (n : ℕ) (hn : n < R.m) (ζ : ℕ → K) (hζ : Pz.Feas E ζ) :
+    R.eval n v ζ = 0 :=
+  rc_sound_eq Pz E hE hwf hones R R rfl rfl hnz hq hxq v hv hv' n hn (fun _ => rfl) ζ hζ
+
+
 end RsomeV.C01
